@@ -17,7 +17,8 @@ variable {H S F : Type} [DecidableEq H]
 
 /-- **Transparency for any key composition and any lookup.** Starting from an empty build directory, every run of the history
     reports (per file and whole program) exactly what a run without build directory reports on the same tree, provided
-    * `hinj`  the hash function has no collisions,
+    * `hinj`  no two hash inputs that occur in the history collide (`HashInjOn`; no function into `size_t` is injective
+              on all byte strings, so the hypothesis is about the history only),
     * `henc`  on the inputs the history analyses the hash data determines the analysis input
               (path, non-comment tokens with full locations, header names and tokens),
     * `hmac`  no suppression decision depends on the macro names of a finding (they are not stored in the cache),
@@ -25,7 +26,7 @@ variable {H S F : Type} [DecidableEq H]
     * `hsum`  no analysis result of the history depends on the function-return summaries (`*.sN`) that the run loads
               from the build directory at its start. -/
 theorem history_transparent_generic (W : World H S F) (t0 : Tree) (evs : List Event)
-    (hinj : Function.Injective W.hash)
+    (hinj : HashInjOn W ((runsOf t0 evs).flatMap (·.2)))
     (henc : KeyFaithfulOn W.enc ((runsOf t0 evs).flatMap (·.2)))
     (hmac : ∀ r ∈ runsOf t0 evs, MacroFree W r.1 r.2)
     (hmap : ∀ r ∈ runsOf t0 evs, MapOK W.lk (r.2.map (·.path)))
@@ -36,7 +37,7 @@ theorem history_transparent_generic (W : World H S F) (t0 : Tree) (evs : List Ev
 
 /-- the per-file findings alone do not depend on the file-to-cache-file mapping -/
 theorem history_transparent_perFile_generic (W : World H S F) (t0 : Tree) (evs : List Event)
-    (hinj : Function.Injective W.hash)
+    (hinj : HashInjOn W ((runsOf t0 evs).flatMap (·.2)))
     (henc : KeyFaithfulOn W.enc ((runsOf t0 evs).flatMap (·.2)))
     (hmac : ∀ r ∈ runsOf t0 evs, MacroFree W r.1 r.2)
     (hsum : ∀ r ∈ cachedRuns W ([], []) t0 evs, SummFree W r.1 r.2) :
@@ -51,12 +52,12 @@ example :
     let W := toyWorld Encoding.legacy .suffixFirst
     let t0 : Tree := [mkInput "a.c" [("x", 1, 1), ("!", 1, 3)], mkInput "b.c" [("?", 2, 1)]]
     let evs := [Event.run showAll, .edit (shiftLines "a.c".toList 3), .run showAll]
-    Function.Injective W.hash
+    HashInjOn W ((runsOf t0 evs).flatMap (·.2))
     ∧ KeyFaithfulOn W.enc ((runsOf t0 evs).flatMap (·.2))
     ∧ (∀ r ∈ runsOf t0 evs, MacroFree W r.1 r.2)
     ∧ (∀ r ∈ runsOf t0 evs, MapOK W.lk (r.2.map (·.path)))
     ∧ (∀ r ∈ cachedRuns W ([], []) t0 evs, SummFree W r.1 r.2) := by
-  refine ⟨fun _ _ h => h, by decide +kernel, by decide +kernel, by decide +kernel, by decide +kernel⟩
+  refine ⟨by decide +kernel, by decide +kernel, by decide +kernel, by decide +kernel, by decide +kernel⟩
 
 /-! ## each hypothesis of the generic theorem is necessary: counterexamples for the key composition and the lookup of the pinned
     commit (repaired by 72c97eb / 249f096), and for the two defects that remain -/
@@ -72,10 +73,10 @@ theorem linecol_mod_256_counterexample :
     let W := toyWorld Encoding.legacy .exactFirst
     let t0 : Tree := [mkInput "t.c" [("x", 1, 1), ("!", 1, 25)]]
     let evs := [Event.run showAll, .edit (shiftLines "t.c".toList 256), .run showAll]
-    Function.Injective W.hash
+    HashInjOn W ((runsOf t0 evs).flatMap (·.2))
     ∧ ((execCached W ([], []) t0 evs).map (·.perFile.flatten.map (·.line)) = [[1], [1]])
     ∧ ((execFresh W t0 evs).map (·.perFile.flatten.map (·.line)) = [[1], [257]]) := by
-  refine ⟨fun _ _ h => h, by decide +kernel, by decide +kernel⟩
+  refine ⟨by decide +kernel, by decide +kernel, by decide +kernel⟩
 
 /-- nothing separates the files and no file name is hashed: moving the code of `m.c` into the header it includes keeps the key;
     the cached run still reports `m.c`, the fresh run `h.h` -/
@@ -193,7 +194,7 @@ example : NoSuffixPair ["a.c".toList, "d/b.c".toList, "ba.cpp".toList] ∧ ["a.c
     analysis, summaries and whole-program analysis: every run of every history over one build directory – any edits: token
     edits, line and column shifts of any size, comment edits, header edits, adding / removing / renaming / touching files –
     reports what a run without build directory reports, given
-    * `hinj`  no hash collisions,
+    * `hinj`  no two hash inputs of the history collide,
     * `hpath` toolinfo starts with `<len>:<path>` (what CppCheck::calculateHash writes: `current_toolinfo_path_first`),
     * `hopt`  toolinfo determines the option values (every history that changes no option; C19 otherwise),
     * `hnd`   a run lists no path twice,
@@ -202,7 +203,7 @@ example : NoSuffixPair ["a.c".toList, "d/b.c".toList, "ba.cpp".toList] ∧ ["a.c
     * `hsum`  no result depends on the function-return summaries loaded from the build directory. -/
 theorem history_transparent_partial (W : World H S F) (t0 : Tree) (evs : List Event)
     (henc : W.enc = Encoding.fixed) (hlk : W.lk = .exactFirst)
-    (hinj : Function.Injective W.hash)
+    (hinj : HashInjOn W ((runsOf t0 evs).flatMap (·.2)))
     (hpath : ∀ r ∈ runsOf t0 evs, ∀ i ∈ r.2, PathPrefixed i)
     (hopt : OptsDetermined ((runsOf t0 evs).flatMap (·.2)))
     (hnd : ∀ r ∈ runsOf t0 evs, (r.2.map (·.path)).Nodup)
@@ -227,6 +228,33 @@ example :
     ∧ (∀ r ∈ runsOf t0 evs, MacroFree W r.1 r.2) ∧ (∀ r ∈ cachedRuns W ([], []) t0 evs, SummFree W r.1 r.2)
     ∧ (execCached W ([], []) t0 evs).map (·.perFile.flatten.map (·.line)) = [[1], [257]] := by
   refine ⟨by decide +kernel, by decide +kernel, by decide +kernel, by decide +kernel, by decide +kernel, by decide +kernel⟩
+
+/-! ## the collision hypothesis: satisfiable by a lossy hash, and necessary -/
+
+/-- the collision hypothesis is met by a hash that is **not** injective: a 16-bit polynomial hash (`"Aa"` and `"BB"` collide) is
+    collision-free on this history, which satisfies every other hypothesis too, under the current key composition and lookup -/
+example :
+    let W := toyWorldH lossyHash Encoding.fixed .exactFirst
+    let t0 : Tree := [(mkInput "t.c" [("x", 1, 1), ("!", 1, 25)]).withPathPrefix, (mkInput "u.c" [("?", 2, 1)]).withPathPrefix]
+    let evs := [Event.run showAll, .edit (shiftLines "t.c".toList 256), .run showAll, .run showAll]
+    ¬ Function.Injective W.hash
+    ∧ HashInjOn W ((runsOf t0 evs).flatMap (·.2))
+    ∧ (∀ r ∈ runsOf t0 evs, ∀ i ∈ r.2, PathPrefixed i) ∧ OptsDetermined ((runsOf t0 evs).flatMap (·.2))
+    ∧ (∀ r ∈ runsOf t0 evs, (r.2.map (·.path)).Nodup)
+    ∧ (∀ r ∈ runsOf t0 evs, MacroFree W r.1 r.2) ∧ (∀ r ∈ cachedRuns W ([], []) t0 evs, SummFree W r.1 r.2)
+    ∧ (execCached W ([], []) t0 evs).map (·.perFile.flatten.map (·.line)) = [[1], [257], [257]] := by
+  refine ⟨fun h => absurd (@h "Aa".toList "BB".toList (by decide +kernel)) (by decide +kernel),
+    by decide +kernel, by decide +kernel, by decide +kernel, by decide +kernel, by decide +kernel, by decide +kernel, by decide +kernel⟩
+
+/-- … and it is necessary: with a hash that maps the two versions of `t.c` to the same value the edited file is served the old result -/
+theorem hash_collision_counterexample :
+    let W := toyWorldH (fun _ => (0 : Nat)) Encoding.fixed .exactFirst
+    let t0 : Tree := [(mkInput "t.c" [("x", 1, 1), ("!", 1, 25)]).withPathPrefix]
+    let evs := [Event.run showAll, .edit (shiftLines "t.c".toList 3), .run showAll]
+    ¬ HashInjOn W ((runsOf t0 evs).flatMap (·.2))
+    ∧ ((execCached W ([], []) t0 evs).map (·.perFile.flatten.map (·.line)) = [[1], [1]])
+    ∧ ((execFresh W t0 evs).map (·.perFile.flatten.map (·.line)) = [[1], [4]]) := by
+  refine ⟨by decide +kernel, by decide +kernel, by decide +kernel⟩
 
 /-! ## what the code composes today (regenerated from the source on every run) -/
 
